@@ -88,7 +88,7 @@ var bindNames = []string{"p", "q", "v", "w", "n", "lim", "ia", "sa", "ba", "ib",
 func generate(w *mon.W) {
 	rng := gen.RNG(w.Seed, "c06")
 	n := w.Pick(6_000, 250_000)
-	positions := []string{"where", "project", "extend", "extend-unnamed", "summarize-agg", "summarize-key", "top", "take", "join-on", "where", "extend"}
+	positions := []string{"where", "project", "extend", "extend-unnamed", "summarize-agg", "summarize-key", "top", "take", "join-on", "where", "extend", "join-on-nested"}
 	for i := 0; i < n && !w.Stopped(); i++ {
 		c := &Case{Params: map[string]string{}, Seed: rng.Int63(), Pos: positions[i%len(positions)]}
 		bound := map[gen.Ty][]string{}
@@ -127,7 +127,7 @@ func generate(w *mon.W) {
 		g := &gen.ExprGen{Rng: rng, Cols: gen.DefaultCols(), Bound: bound, IllTyped: 12, Agg: c.Pos == "summarize-agg"}
 		var t gen.Ty
 		switch c.Pos {
-		case "where", "join-on":
+		case "where", "join-on", "join-on-nested":
 			t = gen.TBool
 		case "take":
 			t = gen.TInt
@@ -149,7 +149,7 @@ func generate(w *mon.W) {
 			}
 			c.Pos = "project-name"
 		}
-		if c.Pos == "join-on" {
+		if c.Pos == "join-on" || c.Pos == "join-on-nested" {
 			bn := map[string]bool{}
 			for k := range ty {
 				bn[k] = true
@@ -160,6 +160,47 @@ func generate(w *mon.W) {
 			}
 		}
 		w.Do(key(c), func(r *mon.R) { Check(c, r) })
+	}
+	// histories: the same let value text compiled with different earlier bindings, then with none
+	for ti, tmpl := range []func(a *E) *E{
+		func(a *E) *E { return Idx(StrLit("abc", false), a) },
+		func(a *E) *E { return Bin("+", a, Num("1")) },
+		func(a *E) *E { return Call("strcat", StrLit("x", true), Call("fs", a)) },
+		func(a *E) *E { return Un("-", a) },
+		func(a *E) *E { return Call("iff", Bin(">", a, Num("1")), Num("10"), Num("20")) },
+		func(a *E) *E { return Idx(Call("fa", Num("7")), a) },
+		func(a *E) *E { return a },
+	} {
+		for _, pos := range []string{"where", "extend", "take"} {
+			ti, tmpl, pos := ti, tmpl, pos
+			w.Do(fmt.Sprint("hist|", ti, "|", pos), func(r *mon.R) {
+				for _, av := range []string{"1", "2", "3"} {
+					x := Bin("==", Name("ia"), Name("b"))
+					p := pos
+					if pos == "extend" {
+						x = Name("b")
+					}
+					if pos == "take" {
+						x, p = Name("a"), "take"
+					}
+					c := &Case{Params: map[string]string{}, Lets: []LetDef{{"a", Num(av)}, {"b", tmpl(Name("a"))}}, X: x, Pos: p, Seed: int64(ti)}
+					Check(c, r)
+					if r.Violated() {
+						return
+					}
+				}
+				// the same text once more, now without the binding it needs
+				src := "let b = " + PrintExpr(Parenthesize(tmpl(Name("a")), nil)) + "; T | where ia == b"
+				sql, err, o := mon.Compile(src, map[string]string{})
+				if o.Anomalous() {
+					r.Inconclusive("foreign_compile_anomaly")
+					return
+				}
+				if err == nil {
+					r.Violation("", "Compile(%q) succeeds with %q although its let value refers to a, which is not bound in this program (it was in earlier calls)", src, sql)
+				}
+			})
+		}
 	}
 	// non-substitution positions
 	queries := []string{
@@ -286,7 +327,7 @@ func Check(c *Case, r *mon.R) {
 		want := Eval(c.X, &EvalCtx{Row: row, Bind: bindFn})
 		got := sqlmini.Eval(sx2, &sqlmini.Ctx{Row: exprpos.ToEnv(row), Params: placeholderVals})
 		same := val.Same(got, want)
-		if c.Pos == "join-on" {
+		if c.Pos == "join-on" || c.Pos == "join-on-nested" {
 			same = exprpos.IsTrue(got) == exprpos.IsTrue(want)
 		}
 		if !same {
